@@ -1,9 +1,10 @@
+import DrummerVerif.Gen.GenConst
 /-! M-CODEC prototype: Colfer encoding of kv.KV (kv/kv.go) over `List UInt8` -/
 namespace Codec
 
 abbrev Bytes := List UInt8
 
-def sizeMax : Nat := 16 * 1024 * 1024
+def sizeMax : Nat := Drummer.Gen.colferSizeMax
 
 structure KV where
   key : Bytes := []
